@@ -387,6 +387,7 @@ class Expr2Mixin:
                            patterns=[inv(k)]))
         self.last_filter = dict(idx=idx, inv=inv, m=m, cond=lambda a: sub(cond, a), n=it.n, r=r)
         self.filter_log.append(self.last_filter)
+        s.notes['filter_log'] = s.notes.get('filter_log', ()) + (self.last_filter,)
         s.lists.update({i: v for i, v in sc.lists.items() if i not in s.lists})
         yield s, s.new_list(r)
 
@@ -450,6 +451,7 @@ class Expr2Mixin:
                            patterns=[MP(ci(k), ci(k2))]))
         self.last_flatten = dict(ci=ci, pi=pi, pos=pos, m=m, n0=it0.n, n1=lambda x: z3.substitute(n1, (a, x)),
                                  cond=lambda x, y: sub(cond, x, y), r=r)
+        s.notes['last_flatten'] = self.last_flatten
         s.lists.update({i: v for i, v in sc.lists.items() if i not in s.lists})
         yield s, s.new_list(r)
 
